@@ -8,7 +8,7 @@
 #define TOG(name, letter, rev, hasd, d, env, grp) { K_TOGGLE, name, letter, rev, hasd, "", d, env, 0, grp }
 #define OPT(name, letter, hasd, d, env, optional, grp) { K_OPTION, name, letter, 0, hasd, d, 0, env, optional, grp }
 #define MUL(name, letter, hasd, d, env, optional, grp) { K_MULTI, name, letter, 0, hasd, d, 0, env, optional, grp }
-#define NDECLS 12
+#define NDECLS 13
 static const struct decl DECLS[NDECLS + 1] = {
     { 0, { { 0 } }, 0, 0 },   /* index 0 unused */
     /* two toggles, optional option and multi-option, all with letters; 2 positionals */
@@ -35,5 +35,7 @@ static const struct decl DECLS[NDECLS + 1] = {
     { 2, { OPT("o", "", 0, "", "", 0, 0), MUL("m", "", 0, "", "", 1, 0) }, 0, 0 },
     /* option with value + 2 positionals, greedy off; toggle with default 2 */
     { 2, { OPT("o", "p", 0, "", "", 1, 0), TOG("a", "x", 0, 1, 2, "", 0) }, 2, 0 },
+    /* long names that are prefixes of one another, across kinds: toggle "a", option "ab", toggle "abc"; one positional */
+    { 3, { TOG("a", "", 0, 0, 0, "", 0), OPT("ab", "", 0, "", "", 1, 0), TOG("abc", "", 0, 0, 0, "", 0) }, 1, 0 },
 };
 #endif
